@@ -243,6 +243,44 @@ func c19CheckEqual(c c19EqCase) engine.Result {
 	return res
 }
 
+type c19NumCase struct {
+	InType int `json:"incoming_type"`
+	Num    int `json:"segment_num"`
+}
+
+// c19CheckNums: for the placement-opportunity ends (and two control types) every (segment_num,
+// segments_expected) pair of the incoming descriptor, against open descriptors of the types its rule row
+// names, for equal and different event ids.
+func c19CheckNums(c c19NumCase) engine.Result {
+	var res engine.Result
+	opens := []c19Val{}
+	for _, t := range []int{0x30, 0x34, 0x36, 0x3C, 0x44, 0x10} {
+		for _, ev := range []uint32{1, 2} {
+			opens = append(opens, c19Val{Type: t, Event: ev, HasPTS: true, PTS: 100, Num: 3, Exp: 9})
+		}
+	}
+	var openDs []scte35.SegmentationDescriptor
+	for _, v := range opens {
+		openDs = append(openDs, mkDescriptor(v))
+	}
+	engine.Guard(&res, "CanClose", func() {
+		for exp := 0; exp < 256; exp++ {
+			vi := c19Val{Type: c.InType, Event: 1, HasPTS: true, PTS: 200, Num: uint8(c.Num), Exp: uint8(exp)}
+			in := mkDescriptor(vi)
+			for j, o := range openDs {
+				res.Evals++
+				if got, want := in.CanClose(o), c19RefCanClose(vi, opens[j]); got != want {
+					res.Failf("CanClose|segment-number-sweep", "incoming %+v open %+v: CanClose=%v want %v", vi, opens[j], got, want)
+					return
+				}
+			}
+		}
+	})
+	res.Nontrivial = 256
+	res.Outcome(c.InType, c.Num%4)
+	return res
+}
+
 func init() {
 	engine.Register(&engine.Property{
 		ID: "C19", Title: "Segmentation closing relation follows the rule table; equality is an equivalence", Level: "model_checking",
@@ -256,6 +294,18 @@ func init() {
 					}
 				},
 				Check: c19CheckClose, Batch: 1,
+			},
+			&engine.Enum[c19NumCase]{
+				Name: "segment-number-sweep",
+				Rule: "incoming types {0x35, 0x37 (placement-opportunity ends), 0x31, 0x11 (controls)} x ALL 256x256 (segment_num, segments_expected) pairs against open descriptors of 6 types x event id equal/different: the relation may depend on the numbers only through num == expected, and only for the placement-opportunity ends",
+				Gen: func(r *engine.Run, emit func(c19NumCase)) {
+					for _, t := range []int{0x35, 0x37, 0x31, 0x11} {
+						for n := 0; n < 256; n++ {
+							emit(c19NumCase{t, n})
+						}
+					}
+				},
+				Check: c19CheckNums, Batch: 4,
 			},
 			&engine.Enum[c19EqCase]{
 				Name: "equality",
